@@ -35,8 +35,14 @@ def run(ctx):
     else:
         i1.fail("C06.I1:%s:net" % f.path, f.path, f.span, "the net output is not gross - commission by aborting subtraction")
     want_sum = T.floors.floor(pz.a * pz.y / pz.x, "ref")
-    tot = pz.n + pz.k + pz.s
-    if tot.equals(want_sum):
+    if pz.s is None:
+        i2.fail("C06.I2:%s:spread-untranslatable" % f.path, f.path, f.span, "cannot interpret the spread component (conditional / saturating arithmetic?): the identity n + commission + spread = floor(a*y/x) is not a term identity any more")
+        tot = None
+    else:
+        tot = pz.n + pz.k + pz.s
+    if tot is None:
+        pass
+    elif tot.equals(want_sum):
         i2.site("n + commission + spread = %s = floor(a*y/x)" % want_sum.show())
     else:
         defs = "; ".join("%s=floor(%s)" % (a, b.show()) for a, b, c in T.floors.items)
@@ -48,7 +54,18 @@ def run(ctx):
         m1.site("n is non-decreasing in a: n = G - floor(G*c) is monotone in G (lemma), G = floor(y - floor(x*y*D/(x+a))/D) is monotone in a")
     else:
         m1.fail("C06.M1:%s" % f.path, f.path, f.span, "cannot type the output as non-decreasing in the offer amount (result %s): the term is %s" % (mm, pz.n.show()))
-    ctx.extra.setdefault("terms", {})["pricing"] = {"n": pz.n.show(), "spread": pz.s.show(), "commission": pz.k.show(),
+    ctx.extra.setdefault("terms", {})["pricing"] = {"n": pz.n.show(), "spread": pz.s.show() if pz.s is not None else "?", "commission": pz.k.show(),
                                                     "floors": ["%s = floor(%s)  <- %s" % (a, b.show(), c) for a, b, c in T.floors.items]}
+    # W1: at system level the function is applied to the pair's actual reserves and to what was delivered
+    w1 = ctx.inst("C06.W1", "the swap handler applies the pricing function to the pair's actual reserves, the delivered amount and the stored rate (shared with C01.R1, C02.R1-R5)", floor=10)
+    from . import c01, c02
+    c01.import_instances(ctx, w1, c02, {"C02.R1", "C02.R2", "C02.R3", "C02.R4", "C02.R5"}, "C06.W1")
+    sub = type(ctx)(ctx.prop, P)
+    c01.run(sub)
+    for i in sub.instances:
+        if i.id == "C01.R1":
+            w1.sites.extend("%s: %s" % (i.id, s) for s in i.sites)
+            for fl in i.failures:
+                w1.fail("C06.W1:%s" % fl["key"], fl["fn"], fl["span"], "[%s] %s" % (i.id, fl["reason"]))
     ctx.assumptions.append("strict inequalities of the statement are proved in their non-strict closure; strictness follows from eps < 1 (DESIGN §7.3)")
     ctx.assumptions.append("lemma used by M1: v - floor(v*c) is non-decreasing in integer v for c in [0,1]")
